@@ -48,6 +48,8 @@ pub fn run(run: &mut Run) {
                 let shape = r.usize(crate::shapes::N_SHAPES);
                 if i % 16 == 5 {
                     crate::with_shape!(shape, landing_case(&mut r, acc, i));
+                } else if i % 16 == 11 {
+                    crate::with_shape!(shape, huge_case(&mut r, acc, i));
                 } else {
                     crate::with_shape!(shape, inexact_case(&mut r, acc, i));
                 }
@@ -273,6 +275,45 @@ fn landing_case<S: Shape>(r: &mut Rng, acc: &mut Acc, index: u64) {
         }
     }
     acc.sig(format!("landing|c={c}|n={n}|delay={}", d > 0.0));
+}
+
+/// A total "longer than anything" (beyond 2^64 s, the most a `Duration` holds, up to f32::MAX), delivered before,
+/// after or together with an ordinary step: a finite animation is over whichever way the time arrived — values,
+/// state and is_ended must be identical — and a zero-length advance afterwards changes nothing (also for an
+/// endless timeline, whose phase at such a time is otherwise undetermined and not compared).
+fn huge_case<S: Shape>(r: &mut Rng, acc: &mut Acc, index: u64) {
+    let spec = random_anim::<S>(r);
+    let st = r.usize(5);
+    let h = *r.pick(&[1.9e19f32, 1.0e20, 3.0e30, f32::MAX, 1.8446744e19]);
+    let a = *r.pick(&[0.125f32, 1.0, 0.001953125, 0.3, 7.5]);
+    let pre = ((st + 1 + r.usize(4)) % 5, vec![0.125f32]);
+    let schedules: Vec<Vec<f32>> = vec![vec![a, h, 0.0], vec![h, 0.0], vec![h, a, 0.0], vec![a, 0.0, h], vec![a, a, h, 0.0, 1.0]];
+    let case = |what: &str| case_json(STREAM_INEXACT, index, vec![("shape", J::s(S::NAME)), ("animator", spec.json()), ("state", J::U(st as u64)), ("huge", J::F(h as f64)), ("small", J::F(a as f64)), ("clause", J::s(what))]);
+    let mut finals: Vec<(S, usize, bool)> = Vec::new();
+    for sch in &schedules {
+        match run_schedule::<S>(&spec, &[pre.clone(), (st, sch.clone())], acc, true) {
+            Ok(obs) => finals.push(obs.last().unwrap().clone()),
+            Err(e) => {
+                acc.violation("c06:zero-step-after-huge", format!("state {st}, steps {:?}: {e}", sch), case("advance(0) changes nothing"));
+                return;
+            }
+        }
+        acc.eval();
+    }
+    let finite = !spec.animated(st) || spec.total(st).is_finite();
+    if finite {
+        for (k, fin) in finals.iter().enumerate().skip(1) {
+            if !same_all(&fin.0, &finals[0].0) || fin.1 != finals[0].1 || fin.2 != finals[0].2 {
+                acc.violation(
+                    "c06:huge-total",
+                    format!("state {st}: delivered as {:?} the values are {:?} (ended {}), delivered as {:?} they are {:?} (ended {})", schedules[0], finals[0].0.vals(), finals[0].2, schedules[k], fin.0.vals(), fin.2),
+                    case("values after a time longer than anything depend on the total only"),
+                );
+                return;
+            }
+        }
+    }
+    acc.sig(format!("huge|finite={finite}|animated={}|h={h}", spec.animated(st)));
 }
 
 fn inexact_case<S: Shape>(r: &mut Rng, acc: &mut Acc, index: u64) {
